@@ -194,6 +194,32 @@ pub fn run(ctx: &mut Ctx) -> (String, Value, Vec<String>) {
                         }
                     }
                 }
+                // limits near the top of the value range ("no threshold"): the least solution is
+                // still the answer
+                if let Some(x) = fp {
+                    let mut huge = vec![u64::MAX, u64::MAX - 1, 1u64 << 63, u64::MAX - a];
+                    if a > 0 {
+                        huge.push(u64::MAX - a + 1);
+                        huge.push(u64::MAX - a - x);
+                    }
+                    for limit in huge {
+                        let c = FpCase { supply: sup.clone(), table: t.clone(), offset: a, limit };
+                        evals.fetch_add(1, Ordering::Relaxed);
+                        match catch(|| lib(&c)) {
+                            Ok(Ok(v)) if du(v) == x => {}
+                            Ok(g) => local_bad.push(("fixed_point::search_with_offset#not-least-solution+huge-limit".to_string(), format!("search_with_offset returned {:?}, least solution by linear scan is Ok({x}) on {:?}", g, c), c.clone())),
+                            Err(e) => local_bad.push(("fixed_point::search_with_offset#panic".to_string(), format!("search_with_offset panicked ({e}) on {:?}", c), c.clone())),
+                        }
+                        if a == 0 {
+                            evals.fetch_add(1, Ordering::Relaxed);
+                            match catch(|| lib_search(&c)) {
+                                Ok(Ok(v)) if du(v) == x => {}
+                                Ok(g) => local_bad.push(("fixed_point::search#not-least-solution+huge-limit".to_string(), format!("search returned {:?}, least solution is Ok({x}) on {:?}", g, c), c.clone())),
+                                Err(e) => local_bad.push(("fixed_point::search#panic".to_string(), format!("search panicked ({e}) on {:?}", c), c.clone())),
+                            }
+                        }
+                    }
+                }
                 a += 1;
                 if a > 40 {
                     break;
@@ -245,7 +271,7 @@ pub fn run(ctx: &mut Ctx) -> (String, Value, Vec<String>) {
     let cov = json!({
         "evaluations": ev,
         "distinct_nontrivial": nontrivial.load(Ordering::Relaxed),
-        "rule": format!("all {} non-decreasing workload tables {{1..{n}}}->{{0..{m}}} (constant beyond) x {} supplies (dedicated, periodic, constrained with P<={pmax}, each also behind an opaque wrapper that exercises the default service_time) x every offset with A=0 or sbf(A-1)<w(1) x every limit 0..=fixed point+2; non-trivial = the least solution exceeds w(1) (more than one iteration)", tables.len(), sups.len()),
+        "rule": format!("all {} non-decreasing workload tables {{1..{n}}}->{{0..{m}}} (constant beyond) x {} supplies (dedicated, periodic, constrained with P<={pmax}, each also behind an opaque wrapper that exercises the default service_time) x every offset with A=0 or sbf(A-1)<w(1) x every limit 0..=fixed point+2 and six limits near u64::MAX; non-trivial = the least solution exceeds w(1) (more than one iteration)", tables.len(), sups.len()),
         "workload_tables": tables.len(),
         "supplies": sups.len(),
         "max_response_time_sequences": mrt,
